@@ -124,6 +124,9 @@ func (p Path) retDesc() string {
 // Scenario fixes the atoms.
 type Scenario struct {
 	Name string
+	// FreshBase: first number for the names the evaluator makes up (objects, cells); a scenario whose end state is
+	// fed into another evaluation uses a base of its own so that the names do not collide.
+	FreshBase int
 	// Redirect resolves a call to a function of the program that is evaluated in place with the given arguments.
 	Redirect func(callee string, args []SV, ev *symEval, st *symState) (*ssa.Function, []SV, func([]SV, *symState) []SV, bool)
 	// Heap gives initial values for memory addressed by description ("recv.buf", "recv.matching",
@@ -221,7 +224,7 @@ type symEval struct {
 
 // evalPaths enumerates the paths of fn under the scenario.
 func evalPaths(fn *ssa.Function, sc *Scenario) ([]Path, error) {
-	ev := &symEval{sc: sc, maxVisit: 3, maxPaths: 4000}
+	ev := &symEval{sc: sc, maxVisit: 3, maxPaths: 4000, counter: sc.FreshBase}
 	if sc.MaxVisit > 0 {
 		ev.maxVisit = sc.MaxVisit
 	}
@@ -1426,6 +1429,9 @@ func (ev *symEval) evalValue(fr *symFrame, st *symState, v ssa.Value) SV {
 					return a // the boxed value itself
 				}
 			}
+		}
+		if (a.K == "int" || a.K == "str" || a.K == "bool") && a.Known {
+			return a // a known value kept in an interface (handed in by the scenario): the assertion yields it
 		}
 		r := defaultFor(x.AssertedType, d)
 		if a.K == "slice" || a.Len != nil {
